@@ -253,6 +253,14 @@ const (
 // vRunMethod issues one client command and applies the C08 oracle.
 func vRunMethod(c *AuditClient, s *vSim, method int) {
 	first := len(s.reqs)
+	defer func() {
+		// a command that answers without asking the kernel shows up as an index panic below: name it
+		if len(s.reqs) == first {
+			if p := recover(); p != nil {
+				vAssert(false, "C08/no-request-reached-the-kernel")
+			}
+		}
+	}()
 	switch method {
 	case vmGetStatus:
 		st, err := c.GetStatus()
@@ -546,12 +554,23 @@ func VH_ClientSetters() {
 		s.recvErrno = []syscall.Errno{syscall.ENOBUFS, syscall.EBADF, syscall.ECONNREFUSED}[vChoose("recverrno", 3)]
 	}
 	pre := 0
+	var keptStatus *AuditStatus
+	var keptBytes []byte
 	if vParam("afterget", 0) != 0 {
 		// a status query first (the kernel answers with 32, 36, 40 or 44 bytes): what is sent afterwards
 		// does not depend on it
-		c.GetStatus()
+		keptStatus, _ = c.GetStatus()
+		if len(s.reqs) > 0 {
+			keptBytes = append([]byte(nil), s.reqs[0].status...)
+		}
 		pre = len(s.reqs)
 	}
+	defer func() {
+		// the status handed out earlier is still what the kernel sent then, whatever was received since
+		if keptStatus != nil && len(keptBytes) > 0 {
+			vCheckStatus(keptStatus, keptBytes, "C16/status-changed-by-a-later-receive")
+		}
+	}()
 	switch vChoose("setter", 9) {
 	case 8:
 		// GetStatusAsync: AUDIT_GET, ACK requested only if asked for, the Send's sequence number returned
@@ -852,6 +871,14 @@ func VH_ClientManyNoWait() {
 	}
 	if anyErr {
 		return // the run of ACKs ends at the first kernel error (VH_ClientHistory's subject)
+	}
+	if b := vParam("burst", 0); b > 0 {
+		// a burst of unsolicited records sits in front of the ACKs
+		var q []vEvent
+		for i := 0; i < b; i++ {
+			q = append(q, vEvent{kind: vEvUnsolicited, seq: 0, typ: 1300, payload: []byte{'x'}})
+		}
+		s.queue = append(q, s.queue...)
 	}
 	err := c.WaitForPendingACKs()
 	vAssert(err == nil, "C17/wait-returned-error-without-kernel-error")
